@@ -6,7 +6,7 @@ from .. import impl
 from . import common as C
 
 POOL = [('v', i) for i in range(5)]
-CONSTS = [('a', 'a'), ('a', 'b'), ('a', 'c'), ('i', 0), ('i', 1), ('s', 'a'), ('s', ''), ('a', '[]'), ('a', '1'),
+CONSTS = [('a', 'a'), ('a', 'b'), ('a', 'c'), ('a', 'f'), ('a', 'g'),      # (f and g are also names of compounds: f is not f()) ('i', 0), ('i', 1), ('s', 'a'), ('s', ''), ('a', '[]'), ('a', '1'),
           ('k', 'None'), ('k', '2.5'), ('k', "b'x'"), ('k', "('t', 1)"), ('i', -3),
           # integers beyond 2**53 (64-bit identifiers, nanosecond time stamps): neighbours that a float cannot tell apart
           ('i', 9007199254740993), ('i', 9007199254740992), ('i', 2 ** 64 + 1), ('i', 2 ** 64)]
@@ -35,6 +35,8 @@ def mutate(src, t, nv, depth=0):
     if k == 1:
         return gterm(src, depth + 1, nv)
     if t[0] == 'f':
+        if k == 5 and not t[2] and t[1] != '.':
+            return ('a', t[1])              # foo() -> foo
         if k == 2:
             return ('f', src.pick(['f', 'g', 'h']), t[2])                  # same arguments, maybe other name
         if k == 3 and len(t[2]) >= 1:
@@ -42,6 +44,8 @@ def mutate(src, t, nv, depth=0):
         return ('f', t[1], tuple(mutate(src, a, nv, depth + 1) if src.n(3) else a for a in t[2]))
     if k == 4:
         return src.pick(CONSTS)
+    if k == 5 and t[0] == 'a':
+        return ('f', t[1], ())              # the atom's name as a compound without arguments: another term
     return t
 
 
@@ -63,7 +67,7 @@ class C02(Prop):
             'mgu exists, at the yield the joint reification of (pool variables, t1, t2) equals the reference\'s resolved '
             'tuple up to renaming (most general, aliasing preserved, t1 and t2 identical), unify(t2, t1) from a fresh '
             'copy of the state gives the same verdict and value, as does unify(t1, u2) with u2 = t2 built by another engine instance, and as does the run in which all generators (stack and pair) are created first and started afterwards in order, closing instead of exhausting also restores, and '
-            'afterwards every variable is as before. Cases that are STO (ISO 7.3.3: some order meets the occurs check) '
+            'afterwards every variable is as before. Once per run: all 400 ordered pairs of 20 constants as a Python program hands them over (1, 1.0, True, 0, 0.0, False, str, None, bytes, tuples, big ints, atoms, a()) - no reference verdict, only consistency: the same verdict at top level, swapped, as arguments of a compound, as list elements and behind a bound variable. Cases that are STO (ISO 7.3.3: some order meets the occurs check) '
             'in the stack or the pair are discarded. Non-trivial = the pair is not syntactically identical and (both '
             'terms compound, or an earlier binding is dereferenced); distinct = SHA-1 of stack + pair.')
     assumptions = ['CPython 3.12 of /venv', 'reference unifier + order-independent STO detector (self-tested against random-order Herbrand runs)',
@@ -92,13 +96,13 @@ class C02(Prop):
         return {'stack': stack, 't1': t1, 't2': t2}
 
     def sample_view(self, case):
-        if 'many_open' in case:
+        if 'many_open' in case or 'wrapped_constants' in case:
             return case
         return {'stack': ['%s = %s' % (show(tt(a)), show(tt(b))) for a, b in case['stack']],
                 'pair': '%s = %s' % (show(tt(case['t1'])), show(tt(case['t2'])))}
 
     def shrink_candidates(self, case):
-        if 'many_open' in case:
+        if 'many_open' in case or 'wrapped_constants' in case:
             return
         st = case['stack']
         for i in range(len(st)):
@@ -111,6 +115,8 @@ class C02(Prop):
     def decide(self, case):
         if 'many_open' in case:
             return self.decide_many_open(case)
+        if 'wrapped_constants' in case:
+            return self.decide_wrapped(case)
         stack = [(tt(a), tt(b)) for a, b in case['stack']]
         t1, t2 = tt(case['t1']), tt(case['t2'])
         try:
@@ -280,7 +286,62 @@ class C02(Prop):
     # -- many unifications open at the same time
     def extra_checks(self, tier, seed):
         case = {'many_open': 700 if tier == 'quick' else 3000}
-        return [(case, self.decide(case))]
+        out = [(case, self.decide(case))]
+        n = len(self.WRAP_VALUES)
+        for i in range(n):
+            for j in range(n):
+                c = {'wrapped_constants': [i, j]}
+                out.append((c, self.decide(c)))
+        return out
+
+    # constants as a Python program hands them over - also values that compare equal across types.  Whether 1 and 1.0 are
+    # "the same constant" is not stated anywhere, so no reference verdict is used: only the property's own clause
+    # "compound terms unify iff name and number of arguments agree [and the arguments unify]" - the verdict for a pair of
+    # constants is the same at top level, as arguments of a compound, as list elements and behind a bound variable
+    WRAP_VALUES = ["1", "1.0", "True", "0", "0.0", "False", "2", "'a'", "'1'", "None", "b'a'", "(1, 2)", "(1.0, 2)", "-1", "2 ** 64", "float(2 ** 64)",
+                   "ATOM:a", "ATOM:1", "ATOM:True", "F0:a"]
+
+    def decide_wrapped(self, case):
+        from yldprolog.engine import unify
+        i, j = case['wrapped_constants']
+        yp = impl.YP()
+
+        def val(k):
+            src = self.WRAP_VALUES[k]
+            if src.startswith('ATOM:'):
+                return yp.atom(src[5:])
+            if src.startswith('F0:'):
+                return yp.functor(src[3:], [])
+            return eval(src)
+
+        def verdict(a, b):
+            g = iter(unify(a, b))
+            try:
+                next(g)
+            except StopIteration:
+                return False
+            try:
+                next(g)
+                return 'twice'
+            except StopIteration:
+                return True
+        detail = {'left': self.WRAP_VALUES[i], 'right': self.WRAP_VALUES[j]}
+        try:
+            top = verdict(val(i), val(j))
+            seen = {'top-level': top, 'swapped': verdict(val(j), val(i)),
+                    'f(_)': verdict(yp.functor('f', [val(i)]), yp.functor('f', [val(j)])),
+                    'g(a,_,X)': verdict(yp.functor('g', [yp.atom('a'), val(i), yp.variable()]), yp.functor('g', [yp.atom('a'), val(j), yp.atom('b')])),
+                    '[_]': verdict(yp.makelist([val(i)]), yp.makelist([val(j)])),
+                    '[x,_|T]': verdict(yp.listpair(yp.atom('x'), yp.listpair(val(i), yp.variable())), yp.makelist([yp.atom('x'), val(j), yp.atom('y')]))}
+            X = yp.variable()
+            for _ in unify(X, val(i)):
+                seen['X=left, p(X)=p(right)'] = verdict(yp.functor('p', [X]), yp.functor('p', [val(j)]))
+                seen['X=left, X=right'] = verdict(X, val(j))
+        except Exception as e:      # noqa
+            return FAIL('wrapped-constants:exception:' + impl.exc_signature(e), dict(detail, error='%s: %s' % (type(e).__name__, str(e)[:200])))
+        if len(set(map(repr, seen.values()))) != 1 or top == 'twice':
+            return FAIL('wrapped-constants:verdict-depends-on-the-position', dict(detail, verdicts={k: str(v) for k, v in seen.items()}))
+        return OK(i != j, ['wrapped-constants:' + ('unify' if top else 'do-not-unify')])
 
     def decide_many_open(self, case):
         """n compound unifications g(Xi, b) = g(a, Yi) are started one after the other and ALL kept open (a deep
